@@ -439,6 +439,32 @@ def probe_panic_ledger_stream(rng, pid):
     return cases
 
 
+def inpanic_stream(rng, pid):
+    """operations issued by a thread that is already unwinding from an unrelated panic (a "drain the rest on drop" guard):
+    `std::thread::panicking()` is true during the whole call -- also with a wrapped iterator that panics inside it"""
+    cases = []
+    i = 0
+    progs = [[["foreach 2"]], [["enumforeach 1"]], [["fold 3"]], [["next", "chunk 2 all", "next"]], [["bufnew 2", "bufnext all", "bufnext all"]],
+             [["foreach 2"], ["next", "next"]], [["next", "next"], ["enumforeach 2"]], [["chunk 2 all"], ["bufnew 2", "bufnext all", "next"]]]
+    for kind in ("iter", "iterref", "vec", "slice"):
+        for L in (3, 5):
+            for pr in progs:
+                for who in ([0], [0, 1]):
+                    for k in (None, 0, 2):
+                        if k is not None and kind not in ("iter", "iterref"):
+                            continue
+                        c = make_source(rng, "%s-ip%d" % (pid, i), kind, L, hint=rng.choice(["exact", "inexact"]))
+                        if k is not None:
+                            c.script = c.script[:k] + ["P"] + c.script[k:]
+                        c.threads = [list(t) for t in pr]
+                        c.inpanic = [t for t in who if t < len(pr)]
+                        if len(pr) > 1:
+                            c.sched = rand_sched(rng, len(pr), 12)
+                        cases.append(c)
+                        i += 1
+    return cases
+
+
 def droppanic_stream(rng, tier, pid):
     """a destructor panics: the k-th destruction of an element performed by the machinery of a consumed vec / array
     (unconsumed chunk rest, elements discarded by `nth`, skip_to_end, Drop, the remainder of into_seq_iter)"""
@@ -642,7 +668,7 @@ def stream_for0(pid, tier, seed):
             for b in bases:
                 b.script = b.script[:k] + ["P"] + b.script[k:]
             cases += exhaustive("C09-px%d" % k, bases, 2, 7 if not big else 10)
-        cases += huge_chunk_stream(rng, pid) + wrapper_droppanic_stream(rng, pid)
+        cases += huge_chunk_stream(rng, pid) + wrapper_droppanic_stream(rng, pid) + inpanic_stream(rng, pid)
         return cases
     if pid == "C10":
         return defects + pulls_stream(rng, tier, pid, prof=dict(skip=True, owners=["intoseq all", "intoseq 1", "intoseq 2", "intoseq 0"]), exh=False, n_random=2000 if not big else 80000) + liar_stream(rng, pid) + zst_stream(rng, pid) + \
@@ -680,6 +706,7 @@ def stream_for0(pid, tier, seed):
                             c.sched = rand_sched(rng, 2, 14)
                             cases.append(c)
                             i += 1
+        cases += [c for c in inpanic_stream(rng, pid) if "P" not in c.script]
         # zero-sized elements through every loop (chunk size 1 and > 1)
         i = 0
         for kind in ("vec", "array", "slice"):
@@ -724,7 +751,7 @@ def stream_for0(pid, tier, seed):
                     if op.split()[0] in ("foreach", "enumforeach") and rng.random() < 0.5:
                         t[j] = op + " panic=%d" % rng.randint(0, 4)
             cases.append(c)
-        cases += droppanic_stream(rng, tier, pid) + wrapper_droppanic_stream(rng, pid)
+        cases += droppanic_stream(rng, tier, pid) + wrapper_droppanic_stream(rng, pid) + inpanic_stream(rng, pid)
         return cases
     if pid == "C19":
         return multi_stream(rng, tier) + [c for c in huge_then_skip_stream(rng, pid, clones=True) if c.kind in ("slice", "range", "vecref") and c.adapt == "none"]
